@@ -26,6 +26,13 @@ def eval_call(E, node, st):
             if rx is None:
                 raise SpecError("regex %r" % pat)
             return E.bind(E.eval(node.args[1], st), lambda s, v: [Out("ok", s, vbool(z3.InRe(v.t, rx)))])
+        if f.id == "is_prefix" and E.spec_mode:
+            def kp(s, vs):
+                a, b = vs
+                sa = E.list_seq(s, a) if a.kind.tag == "list" else a.t
+                sb = E.list_seq(s, b) if b.kind.tag == "list" else b.t
+                return [Out("ok", s, vbool(z3.PrefixOf(sa, sb)))]
+            return E.eval_seq(list(node.args), st, kp)
         if f.id == "fresh" and E.spec_mode:
             # fresh(x): x was allocated after the entry state (of the call / of the function)
             return E.bind(E.eval(node.args[0], st), lambda s, v: [Out("ok", s, vbool(v.t > E.frame.old.alloc))])
